@@ -258,12 +258,12 @@ class PSyLoop(Loop):
     def has_inc_arg(self):
         '''
         :returns: True if any of the Kernels called within this loop have an \
-                argument with INC access, False otherwise.
+                argument with INC (or READINC) access, False otherwise.
         :rtype: bool
         '''
         for kern_call in self.coded_kernels():
             for arg in kern_call.arguments.args:
-                if arg.access == AccessType.INC:
+                if arg.access in (AccessType.INC, AccessType.READINC):
                     return True
         return False
 
